@@ -31,6 +31,7 @@ use spec::{CentralDirectoryEnd, Zip64CentralDirectoryEndLocator, Zip64CentralDir
 //@include spec/extra_walk.rs
 //@include spec/parsed.rs
 //@include spec/zfd_views.rs
+//@include spec/dir_written.rs
 //@include common/writer_types.rs
 //@item src/write.rs | struct ZipRawValues
 pub mod zip_writer {
@@ -241,13 +242,7 @@ impl<W: Write + io::Seek> ZipWriter<W> {
 //@use zw_raw_copy_file
 }
 // ---- append
-pub open spec fn cd_pos(d: Seq<u8>, start: int, i: int) -> int
-    decreases i
-{ if i <= 0 { start } else { cd_pos(d, start, i - 1) + cdh_len(d, cd_pos(d, start, i - 1)) } }
-pub open spec fn dir_parsed(d: Seq<u8>, start: int, files: Seq<ZipFileData>, aoff: u64) -> bool {
-    forall|j: int| 0 <= j < files.len() ==> cdh_at(d, #[trigger] cd_pos(d, start, j))
-        && parsed_matches(files[j], dec_cdh(d, cd_pos(d, start, j)), cd_pos(d, start, j) as u64, aoff)
-}
+//@include spec/dir_parsed.rs
 pub open spec fn dir_start_of(files: Seq<ZipFileData>) -> int { if files.len() > 0 { files[0].central_header_start as int } else { 0 } }
 pub uninterp spec fn append_offset(files: Seq<ZipFileData>, d: Seq<u8>) -> u64;
 // T7x in new_append: `(0..n).map(|_| central_header_to_zip_file(..)).collect::<Result<Vec<_>, _>>()?`
